@@ -28,6 +28,18 @@ def gen_case(rng, max_n=8, p_fail=0.08, p_flag=0.2, mode_mix=True):
             flags[str(i)] = rng.choice(opts)
     rets = [rng.choice([0, 1, 2]) for _ in range(n)]
     fails = [i for i in range(n) if rng.random() < p_fail]
+    idx_flags = n >= 3 and rng.random() < 0.25
+    if idx_flags:
+        # two nodes take their flags from DIFFERENT items of one producer's result
+        j = rng.randrange(n - 2)
+        rets[j] = rng.choice([[1, 0], [0, 1], [1, 0], [0, 1], [1, 1], [0, 0]])
+        flags.pop(str(j), None)  # the producer always runs: indexing the None of a deactivated node is the program's own error
+        i1, i2 = sorted(rng.sample(range(j + 1, n), 2))
+        k1 = rng.randrange(2)
+        flags[str(i1)] = ["node", j, k1]
+        flags[str(i2)] = ["node", j, 1 - k1]
+    reconf = rng.random() < 0.25
+    rrng = random.Random(rng.getrandbits(32))
     case = dict(kind="sched", n=n, edges=[list(e) for e in edges], attrs=attrs, flags=flags, rets=rets,
                 fails=fails, maxc=rng.randint(1, 4), is_async=rng.random() < 0.3, mode="call", profile=rng.random() < 0.15)
     if mode_mix:
@@ -44,7 +56,42 @@ def gen_case(rng, max_n=8, p_fail=0.08, p_flag=0.2, mode_mix=True):
             case["setup"] = [i for i in range(n) if all((p, i) not in set(map(tuple, edges)) for p in range(n))
                              and (str(i) not in flags or flags[str(i)][0] == "const") and rng.random() < 0.5]
             case["mode"] = rng.choice(["call", "setup_then_call"])
+    if reconf:
+        case["reconf"] = gen_reconf(rrng, case)
     return case
+
+
+def gen_reconf(rng, case):
+    """the DAG is built with other priorities / sequential flags / max_concurrency and brought to the case's
+    attributes by two config_from_dict steps (the second one holds priority-only entries, also for nodes whose
+    other attributes are not the defaults); the case's attributes are what the user has then declared."""
+    attrs, n = case["attrs"], case["n"]
+    pre = [dict(priority=a["priority"] if rng.random() < 0.5 else rng.randint(-3, 3),
+                is_sequential=a["is_sequential"] if rng.random() < 0.5 else (not a["is_sequential"])) for a in attrs]
+    pre_maxc = case["maxc"] if rng.random() < 0.4 else rng.randint(1, 4)
+    by_tag = rng.random() < 0.3
+    key = (lambda i: "t%d" % i) if by_tag else node_name
+    s1, s2 = {}, {}
+    cur = [dict(p) for p in pre]
+    for i in range(n):
+        e = {}
+        if cur[i]["is_sequential"] != attrs[i]["is_sequential"] or rng.random() < 0.2:
+            e["is_sequential"] = attrs[i]["is_sequential"]
+        if cur[i]["priority"] != attrs[i]["priority"] and rng.random() < 0.5:
+            e["priority"] = attrs[i]["priority"]
+        if e:
+            s1[key(i)] = e
+            cur[i].update(e)
+    for i in range(n):
+        if cur[i]["priority"] != attrs[i]["priority"] or rng.random() < 0.6:
+            s2[key(i)] = {"priority": attrs[i]["priority"]}
+    steps = [{"nodes": s1}, {"nodes": s2}]
+    how = rng.choice(["step1", "step2", "assign"])
+    if how == "assign":
+        steps.append({"assign_max_concurrency": case["maxc"]})
+    else:
+        steps[0 if how == "step1" else 1]["max_concurrency"] = case["maxc"]
+    return dict(pre=pre, pre_maxc=pre_maxc, by_tag=by_tag, steps=steps)
 
 
 CORPUS = [
@@ -64,6 +111,19 @@ CORPUS = [
     dict(kind="sched", n=4, edges=[[0, 2], [1, 3]], attrs=[dict(priority=0, is_sequential=False, resource="thread")] * 4, flags={}, rets=[1] * 4, fails=[0], maxc=2, is_async=False, mode="call"),
     # deactivated node with dependents
     dict(kind="sched", n=3, edges=[[0, 1], [1, 2]], attrs=[dict(priority=0, is_sequential=False, resource="thread")] * 3, flags={"1": ["const", False]}, rets=[1] * 3, fails=[], maxc=1, is_async=False, mode="call"),
+    # a failing main-thread node while an async-thread node is in flight (both flavours)
+    dict(kind="sched", n=3, edges=[], attrs=[dict(priority=5, is_sequential=False, resource="async-thread"), dict(priority=1, is_sequential=False, resource="main-thread"), dict(priority=0, is_sequential=False, resource="thread")],
+         flags={}, rets=[1, 1, 1], fails=[1], maxc=2, is_async=False, mode="call"),
+    dict(kind="sched", n=3, edges=[], attrs=[dict(priority=5, is_sequential=False, resource="async-thread"), dict(priority=1, is_sequential=False, resource="main-thread"), dict(priority=0, is_sequential=False, resource="thread")],
+         flags={}, rets=[1, 1, 1], fails=[1], maxc=2, is_async=True, mode="call"),
+    # two failing nodes in flight together (their failures may be observed by one wait)
+    dict(kind="sched", n=3, edges=[], attrs=[dict(priority=2, is_sequential=False, resource="thread"), dict(priority=1, is_sequential=False, resource="thread"), dict(priority=0, is_sequential=False, resource="main-thread")],
+         flags={}, rets=[1, 1, 1], fails=[0, 1], maxc=3, is_async=False, mode="call"),
+    dict(kind="sched", n=2, edges=[], attrs=[dict(priority=2, is_sequential=False, resource="async-thread"), dict(priority=1, is_sequential=False, resource="async-thread")],
+         flags={}, rets=[1, 1], fails=[0, 1], maxc=2, is_async=True, mode="call"),
+    # two flags taken from different items of one result
+    dict(kind="sched", n=3, edges=[], attrs=[dict(priority=0, is_sequential=False, resource="thread")] * 3, flags={"1": ["node", 0, 0], "2": ["node", 0, 1]}, rets=[[1, 0], 1, 1], fails=[], maxc=1, is_async=False, mode="call"),
+    dict(kind="sched", n=3, edges=[], attrs=[dict(priority=0, is_sequential=False, resource="thread"), dict(priority=1, is_sequential=False, resource="thread"), dict(priority=2, is_sequential=False, resource="thread")], flags={"1": ["node", 0, 0], "2": ["node", 0, 1]}, rets=[[1, 0], 1, 1], fails=[], maxc=2, is_async=True, mode="call"),
     # flag from a node result (falsy)
     dict(kind="sched", n=3, edges=[[0, 2]], attrs=[dict(priority=0, is_sequential=False, resource="thread")] * 3, flags={"2": ["node", 1]}, rets=[1, 0, 1], fails=[], maxc=2, is_async=False, mode="call"),
 ]
@@ -89,9 +149,14 @@ def build(case):
     setup = set(case.get("setup") or [])
     debug = set(case.get("debug") or [])
     fs = []
+    rc = case.get("reconf")
     for i in range(n):
         a = dict(case["attrs"][i])
         a["resource"] = RES[a["resource"]]
+        if rc:
+            a.update(rc["pre"][i])
+            if rc["by_tag"]:
+                a["tag"] = "t%d" % i
         if i in setup:
             a["setup"] = True
         if i in debug:
@@ -105,13 +170,19 @@ def build(case):
             kw = {}
             fl = case["flags"].get(str(i))
             if fl is not None:
-                kw["twz_active"] = fl[1] if fl[0] == "const" else v[fl[1]]
+                kw["twz_active"] = fl[1] if fl[0] == "const" else (v[fl[1]] if len(fl) == 2 else v[fl[1]][fl[2]])
             v[i] = fs[i](*[v[j] for j in range(i) if (j, i) in eset], **kw)
         return tuple(v[i] for i in range(n))
 
     desc.__qualname__ = "desc"
     desc.__name__ = "desc"
-    d = tawazi.dag(desc, max_concurrency=case["maxc"], is_async=case["is_async"])
+    d = tawazi.dag(desc, max_concurrency=rc["pre_maxc"] if rc else case["maxc"], is_async=case["is_async"])
+    if rc:
+        for st in rc["steps"]:
+            if "assign_max_concurrency" in st:
+                d.max_concurrency = st["assign_max_concurrency"]
+            else:
+                d.config_from_dict(st)
     mode = case.get("mode", "call")
     names = lambda l: None if l is None else [node_name(i) for i in l]  # noqa: E731
     if mode == "call":
@@ -122,6 +193,31 @@ def build(case):
         ex = d.executor(target_nodes=names(case.get("target")), exclude_nodes=names(case.get("exclude")), root_nodes=names(case.get("root")))
         return d, [lambda: ex()]
     raise ValueError(mode)
+
+
+def declared_cfg(case, cfg):
+    """the configuration the user declared (decorator arguments, then reconfiguration), which is what the
+    properties speak about: sequential flags, resources and max_concurrency come from the case, not from what
+    the scheduler was handed.  -> (cfg, list of (property, message) for each difference)"""
+    out = dict(cfg)
+    diffs = []
+    if cfg["maxc"] != case["maxc"]:
+        # a larger limit than declared lets the bound be exceeded (C04); a smaller one leaves declared slots unused (C08)
+        diffs.append((("C04",) if cfg["maxc"] > case["maxc"] else ("C08",), "the scheduler was handed max_concurrency=%r, the DAG's max_concurrency is %r" % (cfg["maxc"], case["maxc"])))
+        out["maxc"] = case["maxc"]
+    seq, res = dict(cfg["seq"]), dict(cfg["res"])
+    for nme in cfg["nodes"]:
+        if not (nme.startswith("n") and nme[1:].isdigit()) or int(nme[1:]) >= case["n"]:
+            continue
+        a = case["attrs"][int(nme[1:])]
+        if nme in seq and seq[nme] != a["is_sequential"]:
+            diffs.append((("C05",), "node %s is declared is_sequential=%r, the scheduler was handed %r" % (nme, a["is_sequential"], seq[nme])))
+            seq[nme] = a["is_sequential"]
+        if nme in res and res[nme] != a["resource"]:
+            diffs.append((("C04",), "node %s is declared with resource %s, the scheduler was handed %s" % (nme, a["resource"], res[nme])))
+            res[nme] = a["resource"]
+    out["seq"], out["res"] = seq, res
+    return out, diffs
 
 
 # ------------------------------------------------------------------------------ trace -> labels
@@ -256,6 +352,29 @@ def monitors(cfg, trace_seg_all, labels, end):
             if n not in skipped and n not in xenter:
                 errs.append(("C03", "selected active node %s never executed in a successful run" % n))
                 errs.append(("C09", "returned normally although node %s has not run" % n))
+    # C10 / C03: the activation decision is the truthiness of the flag's value (after indexing)
+    for e in trace_seg_all:
+        if e[0] != "ACTIVE" or e[1] not in cfg.get("active", {}):
+            continue
+        p, key = cfg["active"][e[1]]
+        if p not in part:
+            continue
+        if p in skipped:
+            exp = None
+        else:
+            okx = [x for x in xexit.get(p, []) if x[1]]
+            if not okx:
+                continue
+            exp = okx[0][2]
+            try:
+                for k_ in key:
+                    exp = exp[k_]
+            except BaseException:  # noqa: BLE001
+                continue
+        if bool(exp) != bool(e[2]):
+            msg = "node %s was %s although its flag %s%s is %r" % (e[1], "run" if e[2] else "deactivated", p, list(key), exp)
+            errs.append(("C10", msg))
+            errs.append(("C03", msg))
     # C02: dependencies returned before entry; values
     for n, ks in xenter.items():
         k0 = ks[0][0]
@@ -348,8 +467,16 @@ def monitors(cfg, trace_seg_all, labels, end):
             fnode = end[1]
             exc = end[2]
             if type(exc).__name__ == "TawaziBaseException":
-                if fnode not in str(exc) or exc.__cause__ is None:
+                c = exc.__cause__
+                if fnode not in str(exc) or c is None:
                     errs.append(("C14", "exception does not name failing node %s or lacks cause" % fnode))
+                elif isinstance(c, tz.NodeBoom) and c.node != fnode:
+                    errs.append(("C14", "exception names failing node %s, its cause is the exception raised by %s" % (fnode, c.node)))
+                elif type(c).__name__ == "TawaziBaseException":
+                    errs.append(("C14", "exception names failing node %s, its cause is not the original exception but %r" % (fnode, c)))
+            elif getattr(exc, "_verif_node", None) != fnode and not isinstance(exc, tz.NodeBoom):
+                # neither tawazi's wrapper nor the very exception the node's execution raised
+                errs.append(("C14", "node %s failed and the call raised %s: %s, which neither identifies the failing node nor is the node's own exception" % (fnode, type(exc).__name__, str(exc)[:80])))
     failed = {n for n, xs in xexit.items() if any(not x[1] for x in xs)}
     if failed:
         desc = set()
